@@ -31,6 +31,20 @@ for lg in glob.glob(os.path.join(V, 'benign', 'mutscan*.log')):
         if mm and mm.group(1) == rel:
             done.add((int(mm.group(2)) - 1, mm.group(3)))
 cands = [c for c in cands if c not in done]
+if os.environ.get('VF_MUT_SWAP'):
+    # operator: swap two adjacent simple statements of the same indentation (at least one sync-relevant)
+    cands = []
+    for i in range(len(src) - 1):
+        a, b = src[i], src[i + 1]
+        ta, tb = a.strip(), b.strip()
+        if not (ta.endswith(';') and tb.endswith(';')) or len(a) - len(a.lstrip()) != len(b) - len(b.lstrip()) or len(a) - len(a.lstrip()) < 8:
+            continue
+        if any(re.match(r'^(return|using|typedef|template|break|continue|throw|else|case|default)\b', t) for t in (ta, tb)) or '//' in ta:
+            continue
+        if ta.count('(') != ta.count(')') or tb.count('(') != tb.count(')') or ta == tb:
+            continue
+        if (KEY.search(ta) or KEY.search(tb)) and (i, 'swap') not in done:
+            cands.append((i, 'swap'))
 random.seed(seed)
 random.shuffle(cands)
 for i, kind in cands[:n]:
@@ -38,7 +52,9 @@ for i, kind in cands[:n]:
     try:
         shutil.copytree('/repo/gmlc', os.path.join(tmp, 'gmlc'))
         m = list(src)
-        if kind == 'delete':
+        if kind == 'swap':
+            m[i], m[i + 1] = m[i + 1], m[i]
+        elif kind == 'delete':
             m[i] = re.match(r'^\s*', m[i]).group(0) + '/* mutant: deleted */;'
         else:
             mm = re.match(r'^(\s*)(if|while)\s*\((.*)\)(\s*\{?)$', m[i])
